@@ -893,6 +893,8 @@ class Engine:
             root = p[0]
             if n["k"] == "ref" and n["dk"] in ("local", "param"):
                 continue
+            if f.show(lhs) == "errno":
+                continue        # errno (thread-local, via __errno_location) is no part of the analysed heap
             if root[0] == "var" and root[1] in local_aggr and "*" not in p:
                 continue        # field / element of a local aggregate
             if n["k"] == "member" and n["field"]:
